@@ -133,6 +133,15 @@ def _bumptoktype(e):
     return None
 
 
+def _sloftype(e):
+    try:
+        v = e['obs']['vars'][0]
+    except (KeyError, IndexError, TypeError):
+        return None
+    v[0] = 'Boolean' if v[0] != 'Boolean' else 'Null'
+    return e
+
+
 PROPS = {
     'C11': dict(
         tv=dict(module='ScannerTrace', cfg='ScannerTrace.cfg'),
@@ -226,6 +235,12 @@ PROPS = {
         corrupt=[('token type + 1', _bumptoktype)],
         exhaustive_part=True,
         harness_prefix='HARNESS:',
+    ),
+    'C20': dict(
+        tv=dict(module='VariantHeapTrace', cfg='VariantHeapTrace.cfg'),
+        mc=[dict(module='VariantHeapMC', cfg='VariantHeapMC.cfg')],
+        corrupt=[('change the reported type of a slot', _sloftype)],
+        exhaustive_part=True,
     ),
 }
 
@@ -387,5 +402,19 @@ DOC = {
         note='Trusted: TLC, Json module, recorder. CanAbut is deliberately conservative (a separator is inserted whenever merging is '
              'conceivable); hexadecimal numbers are not produced by either tokenizer and not generated.',
         technique='TLA+ lexical grammar (Lexer.WellFormed/CanAbut/TypeOf) + TLC trace validation of generated lexeme sequences on the real tokenizers',
+    ),
+    'C20': dict(
+        level='VariantHeap.tla is the value model: a variant slot holds <<type, payload>>, an array payload is the variant\'s own sequence of '
+              'element references, building from a list / cloning / assigning copy it, index writes past the end grow with nulls; equality '
+              'is specified three-valued (must be true / must be false / either, where identity vs value comparison of elements is left '
+              'open) and must be symmetric and total. VariantHeapMC.tla model-checks independence of slots and "a clone equals its '
+              'original" over all operation sequences up to the bound. Real variants are driven through all histories of 3 (quick) / 4 '
+              '(thorough) operations on 2 slots and a caller list and random histories on 4 slots and 2 lists; after every step the type, '
+              'payload, element identities of every slot and the equality matrix are validated by VariantHeapTrace.tla. A table of host '
+              'values of all 15 Go kinds (with extremes) checks the variant type and the typed accessor.',
+        note='Trusted: TLC, Json module, recorder (pointer identity of elements; growth nulls are reported as "nul"). uint values above '
+             'MaxInt64 cannot be held by the Long type and are not generated; SetByIndex/SetLength on non-arrays and GetByIndex out of range '
+             'are documented precondition panics and not driven.',
+        technique='TLA+ value model + TLC model checking (VariantHeapMC) + TLC trace validation of operation histories on real variants',
     ),
 }
